@@ -9,7 +9,7 @@ From RV Require Import Model.Base Model.Spirv Model.Grammar Model.Reflect Model.
 From RV Require Import Gen.SpirvData Gen.LoaderData Inst.Linked Inst.PanicAudit.
 From RV Require Gen.PanicSites Gen.RefPanicAudit.
 From RV Require Import Model.Inst Model.Decoder Model.Parser Proofs.DecoderFacts Proofs.NoPanicFacts Inst.C05_inst Inst.Run Proofs.LoadBytesFacts.
-From RV Require Import Model.Loader.
+From RV Require Import Model.Loader Model.Disasm Inst.DisVocab Inst.Run2 Proofs.LayoutFacts Proofs.EndToEndFacts Proofs.CodecFacts Proofs.DisSafeFacts.
 
 Theorem C04_loader_arms_link :
   link_larms op_enum loader_arms_raw = Some loader_arms /\ loader_translation_failures = [].
@@ -63,6 +63,14 @@ Theorem C04_load_never_panics :
   forall bytes, lw_panic (fst (load_case bytes)) = false /\ forall p, snd (load_case bytes) <> Panic p.
 Proof. exact load_case_never_panics. Qed.
 
+(** any module the loader accepts can afterwards be disassembled without
+    panicking: the type-tracker index panics of Module::disassemble are
+    unreachable for loaded modules, and the debug assertion of disas_constant never fires *)
+Theorem C04_loaded_module_disassembles :
+  forall bytes, Forall byte bytes -> snd (load_case bytes) = Ok tt ->
+  dis_panics V (loaded_module bytes) = false /\ dis_debug_asserts (loaded_module bytes) = false.
+Proof. exact (fun bytes H1 H2 => conj (loaded_module_disassembles bytes H1 H2) (loaded_module_no_debug_assert bytes H1 H2)). Qed.
+
 Print Assumptions C04_loader_arms_link.
 Print Assumptions C04_panic_sites_audited.
 Print Assumptions C04_grammar_wellformed.
@@ -73,3 +81,4 @@ Print Assumptions C04_progress.
 Print Assumptions C04_decoder_requests_safe.
 Print Assumptions C04_loader_never_panics.
 Print Assumptions C04_load_never_panics.
+Print Assumptions C04_loaded_module_disassembles.
